@@ -416,8 +416,12 @@ def main(args):
                  "new states are appended once in sorted-symbol order, the no-duplicates / inverse-index-map invariant is re-established")
     run.function("compiler.front_end.lr1.Parser.parse", "pyvc: one iteration of its loop from a generic configuration (stack depth <= 4, rhs length <= 2): Shift / Reduce (node over the popped trees in order, goto of the state below) / "
                  "Accept / Error (code or the state's default, cursor, token, state, non-error terminals of the row) exactly as the shift-reduce algorithm prescribes")
-    for o in lr1_table.frame_obligations():
-        run.add(o)
+    try:
+        for o in lr1_table.frame_obligations():
+            run.add(o)
+    except core.CheckerError as e:
+        # the table loops no longer have the shape the step contracts are anchored to: reported, and the bounded part still runs
+        run.error(str(e))
     rp = None
     for ob in run.obligations[n0:]:
         if ob.verdict == core.REFUTED:
